@@ -123,3 +123,11 @@ Definition wcase_explain (cfg : deviations) (c : wcase) :=
 (* the cases the first-occurrence theorem speaks about *)
 Definition wcase_wf (c : wcase) : Prop :=
   args_ok (wc_args c) /\ a_badexpr (wc_args c) = false /\ timed (wc_hist c).
+
+(* ---------- a scenario = the same call made one or more times in a row (each by a fresh task, after the previous one
+   is over); every call is judged on its own: occurrences before its call instant are its pre-history ---------- *)
+Definition wcases_model_ok (cfg : deviations) (l : list wcase) : bool := forallb (wcase_model_ok cfg) l.
+Definition wcases_spec_ok (l : list wcase) : bool := forallb wcase_spec_ok l.
+Definition wcases_attrib (cfg : deviations) (l : list wcase) : list nat :=
+  flat_map (wcase_attrib cfg) (filter (fun c => negb (wcase_spec_ok c)) l).
+Definition wcases_explain (cfg : deviations) (l : list wcase) := map (wcase_explain cfg) l.
